@@ -2,6 +2,7 @@
    ExtrOcamlBasic only: bool, option, unit, prod, list, sumbool map to OCaml's own types;
    nat, positive, Z stay the extracted inductive types.  No Extract Constant of ours. *)
 From Coq Require Import Extraction ExtrOcamlBasic.
-From FV Require Import StoreP.
+From FV Require StoreP StoreB.
 Extraction Language OCaml.
-Separate Extraction StoreP.step StoreP.init StoreP.run_trace.
+Separate Extraction StoreP.step StoreP.init StoreP.run_trace
+  StoreB.step StoreB.init StoreB.run_trace.
